@@ -161,6 +161,8 @@ func C03(c *Ctx) {
 
 func C10(c *Ctx) {
 	R9SQLSchema(c)
+	R9DBShape(c)
+	R12Registry(c)
 	R9ScanWidth(c)
 	R9NameIdentity(c)
 	R9AckOrder(c)
@@ -176,11 +178,15 @@ func C02(c *Ctx) {
 	R8RequestID(c)
 	R8Terminators(c)
 	R8Pivot(c)
+	R14Commands(c)
 }
 
 func C08(c *Ctx) {
 	R8IDWidth(c)
 	R4PivotQueue(c)
+	R9Pivot(c)
+	R6GateDominance(c)
+	R6AcceptList(c)
 	R8Pivot(c)
 	// the relayed callback is gated by the child's own outstanding tasks: they must be recorded for pivot children too
 	R6Issue(c)
@@ -241,11 +247,14 @@ func C06(c *Ctx) {
 func C07(c *Ctx) {
 	R7PathContain(c)
 	R7FileID(c)
+	R7LootHandle(c)
 }
 
 func C09(c *Ctx) {
+	R9DBShape(c)
 	R9Pivot(c)
 	R9CycleGuard(c)
+	R9MoveUnlinks(c)
 	R5RangeMut(c, func(fn string) bool {
 		return strings.Contains(fn, "UnlinkFromAll") || strings.Contains(fn, "LinkRemove") || strings.Contains(fn, "TaskDispatch") || strings.Contains(fn, "Died")
 	}, 3)
